@@ -14,5 +14,31 @@ pub fn main() {
     println!("Definition G_REWARD_SHARE_ECONOMIC_BURN_RATE_MASK : N := {}.", doublezero_revenue_distribution::types::RewardShare::ECONOMIC_BURN_RATE_MASK);
     println!("Definition G_REWARD_SHARE_SIZE : N := {}.", std::mem::size_of::<doublezero_revenue_distribution::types::RewardShare>());
     println!("Definition G_CBR_PARAMS_SIZE : N := {}.", std::mem::size_of::<doublezero_revenue_distribution::state::CommunityBurnRateParameters>());   // C14 (BurnRate.v)
+    // world model (State.v / RD.v / Passport.v): account sizes, limits, rent, flag bits, mint decimals
+    {
+        use doublezero_program_tools::zero_copy::data_end;
+        use doublezero_revenue_distribution as rd;
+        use doublezero_passport as pp;
+        println!("Definition G_LEN_RD_CONFIG : N := {}.", data_end::<rd::state::ProgramConfig>());
+        println!("Definition G_LEN_JOURNAL : N := {}.", data_end::<rd::state::Journal>());
+        println!("Definition G_LEN_DIST : N := {}.", data_end::<rd::state::Distribution>());
+        println!("Definition G_LEN_DEPOSIT : N := {}.", data_end::<rd::state::SolanaValidatorDeposit>());
+        println!("Definition G_LEN_CONTRIB : N := {}.", data_end::<rd::state::ContributorRewards>());
+        println!("Definition G_LEN_PP_CONFIG : N := {}.", data_end::<pp::state::ProgramConfig>());
+        println!("Definition G_LEN_ACCESS_REQ : N := {}.", data_end::<pp::state::AccessRequest>());
+        println!("Definition G_ACCESS_MODE_MAX : N := {}.", pp::state::REQUEST_ACCESS_MAX_DATA_SIZE);
+        println!("Definition G_LEN_FILLS : N := {}.", data_end::<mock_swap_sol_2z::state::FillsRegistry>());
+        println!("Definition G_MAX_PERMITTED_DATA_INCREASE : N := {}.", solana_account_info::MAX_PERMITTED_DATA_INCREASE);
+        println!("Definition G_LEN_TOKEN : N := {}.", <spl_token_interface::state::Account as solana_program_pack::Pack>::LEN);
+        println!("Definition G_LEN_MINT : N := {}.", <spl_token_interface::state::Mint as solana_program_pack::Pack>::LEN);
+        let r = solana_sdk::rent::Rent::default();
+        println!("Definition G_RENT_0 : N := {}.", r.minimum_balance(0));
+        println!("Definition G_RENT_1000 : N := {}.", r.minimum_balance(1000));
+        println!("Definition G_RELAY_MIN_LAMPORTS : N := {}.", rd::state::RelayParameters::MIN_LAMPORTS);
+        println!("Definition G_MINT_DECIMALS : N := {}.", rd::DOUBLEZERO_MINT_DECIMALS);
+        println!("Definition G_DIST_FLAG_BITS : list N := [{}; {}; {}; {}].", rd::state::Distribution::FLAG_IS_DEBT_CALCULATION_FINALIZED_BIT,
+            rd::state::Distribution::FLAG_IS_REWARDS_CALCULATION_FINALIZED_BIT, rd::state::Distribution::FLAG_HAS_SWEPT_2Z_TOKENS_BIT,
+            rd::state::Distribution::FLAG_IS_SOLANA_VALIDATOR_DEBT_WRITE_OFF_ENABLED_BIT);
+    }
     crate::direct_wire::dump_constants();   // C19 (Wire.v): selectors, program ids, derived-enum tags
 }
